@@ -350,6 +350,38 @@ func execCall(c *Call, p *prepared) (digest string, failed bool, keep []retained
 		}
 		out := buf.Bytes()
 		return fmt.Sprintf("bytes %d %s", len(out), sumBufs([][]byte{out})), false, []retained{{"animation bytes", [][]byte{out}, ""}}
+	case "frenc": // the exported frame-encoder hook (set by package webp): raw VP8 / VP8L bitstream
+		if animation.FrameEncoderFunc == nil {
+			return "no-hook", true, nil
+		}
+		out, err := animation.FrameEncoderFunc(p.img, c.Opt.Lossless, int(c.Opt.Q))
+		if err != nil {
+			return "err", true, nil
+		}
+		return fmt.Sprintf("bytes %d %s", len(out), sumBufs([][]byte{out})), false, []retained{{"FrameEncoderFunc bitstream", [][]byte{out}, ""}}
+	case "animframes": // DecodeBytes, then the exported frame-decoder hook on every frame
+		anim, err := animation.DecodeBytes(p.data)
+		if err != nil {
+			return "err", true, nil
+		}
+		if animation.FrameDecoderFunc == nil {
+			return "no-hook", true, nil
+		}
+		h := sha256.New()
+		var imgs, raw [][]byte
+		for i := range anim.Frames {
+			f := &anim.Frames[i]
+			raw = append(raw, f.BitstreamData, f.AlphaData)
+			img, err := animation.FrameDecoderFunc(f.BitstreamData, f.AlphaData)
+			if err != nil {
+				return fmt.Sprintf("err-frame-%d", i), true, nil
+			}
+			fmt.Fprintf(h, "%v %d|", img.Rect, img.Stride)
+			h.Write(img.Pix)
+			imgs = append(imgs, img.Pix)
+		}
+		return fmt.Sprintf("frames %d %s", len(anim.Frames), hex.EncodeToString(h.Sum(nil)[:12])), false,
+			[]retained{{"FrameDecoderFunc images", imgs, ""}, {"Frames' BitstreamData/AlphaData from DecodeBytes", raw, ""}}
 	case "animdec":
 		anim, err := animation.DecodeBytes(p.data)
 		if err != nil {
@@ -975,6 +1007,31 @@ func (g *gen) history(group string) *history {
 		if r.Intn(3) == 0 {
 			h.Procs = 4
 		}
+	case "frame-codec-hooks": // the exported animation.FrameEncoderFunc / FrameDecoderFunc: values they return must survive later calls
+		w0, h0 := 16+r.Intn(50), 16+r.Intn(40)
+		lossless := r.Intn(3) == 0
+		for i := 0; i < n+1; i++ {
+			switch {
+			case i == 0 || r.Intn(3) != 0:
+				im := g.img(w0, h0) // same size: the pooled encoder is reused
+				im.Type = "nrgba"
+				if r.Intn(4) == 0 {
+					lossless = !lossless
+				}
+				h.Calls = append(h.Calls, &Call{Op: "frenc", Img: im, Opt: &OptSpec{Lossless: lossless, Q: float32(r.Pick(30, 75, 95))}})
+			case r.Bool():
+				f := g.pickLib(func(t string) bool { return strings.HasPrefix(t, "anim") && !strings.Contains(t, "-") })
+				h.Calls = append(h.Calls, &Call{Op: "animframes", File: f.Path, Tag: f.Tag})
+			case r.Bool():
+				o := g.lossyOpts()
+				if r.Bool() {
+					o = g.losslessOpts()
+				}
+				h.Calls = append(h.Calls, &Call{Op: "enc", Img: g.img(w0, h0), Opt: o})
+			default:
+				h.Calls = append(h.Calls, g.decCall(g.pickLib(func(t string) bool { return !strings.HasPrefix(t, "anim") && !strings.Contains(t, "-") })))
+			}
+		}
 	case "foreign-decode": // A transmits header values (foreign or library-made), B relies on defaults, compare B with fresh
 		isF := func(t string) bool { return strings.HasPrefix(t, "vp8f") }
 		transmits := func(t string) bool {
@@ -1111,13 +1168,19 @@ func callKind(c *Call, failed bool) string {
 		default:
 			k = "E8"
 		}
+	case "frenc":
+		if c.Opt.Lossless {
+			k = "EL"
+		} else {
+			k = "E8+EL"
+		}
 	case "animenc":
 		if c.Anim.Lossless && !c.Anim.Mixed {
 			k = "EL"
 		} else {
 			k = "E8+EL" // sub-frame optimisation introduces transparency: ALPH planes
 		}
-	case "dec", "animdec":
+	case "dec", "animdec", "animframes":
 		switch codecOfTag(c.Tag) {
 		case "vp8l":
 			k = "DL"
@@ -1367,8 +1430,8 @@ func run(c *Ctx) {
 	var hs []*history
 	hs = append(hs, regressionHistories(g)...)
 
-	groups := []string{"lossy-enc-same-mb", "lossy-enc-option-pairs", "larger-then-smaller", "lossless-colours", "lossless-big-then-small", "wider-then-narrower-parallel", "decode-aba", "foreign-decode", "anim-between-stills", "mixed", "parallel-lossy-enc", "preset-dither-alpha", "procs4-mixed"}
-	per := map[string]int{"lossy-enc-same-mb": 11, "lossy-enc-option-pairs": 10, "larger-then-smaller": 6, "lossless-colours": 6, "lossless-big-then-small": 10, "wider-then-narrower-parallel": 12, "decode-aba": 12, "foreign-decode": 14, "anim-between-stills": 6, "mixed": 6, "parallel-lossy-enc": 4, "preset-dither-alpha": 10, "procs4-mixed": 5}
+	groups := []string{"lossy-enc-same-mb", "lossy-enc-option-pairs", "larger-then-smaller", "lossless-colours", "lossless-big-then-small", "wider-then-narrower-parallel", "decode-aba", "foreign-decode", "frame-codec-hooks", "anim-between-stills", "mixed", "parallel-lossy-enc", "preset-dither-alpha", "procs4-mixed"}
+	per := map[string]int{"lossy-enc-same-mb": 11, "lossy-enc-option-pairs": 10, "larger-then-smaller": 6, "lossless-colours": 6, "lossless-big-then-small": 10, "wider-then-narrower-parallel": 12, "decode-aba": 12, "foreign-decode": 14, "frame-codec-hooks": 8, "anim-between-stills": 6, "mixed": 6, "parallel-lossy-enc": 4, "preset-dither-alpha": 10, "procs4-mixed": 5}
 	if c.Thorough() {
 		for k := range per {
 			per[k] *= 12
